@@ -27,6 +27,73 @@ import progs
 import wholeprog as W
 
 
+ENT = ["types", "funcs", "lambdas", "vars", "classes", "decls"]
+
+
+def _ast_ids(p):
+    """ids of every ast node reachable from the program's declarations"""
+    seen, stack = set(), list(p.declarations)
+    while stack:
+        n = stack.pop()
+        if n is None or id(n) in seen:
+            continue
+        seen.add(id(n))
+        try:
+            stack.extend(n.children())
+        except Exception:       # noqa: BLE001
+            pass
+        for attr in ("fields", "functions", "superclasses", "params", "body", "type_parameters"):
+            v = getattr(n, attr, None)
+            if isinstance(v, (list, tuple)):
+                stack.extend(x for x in v if hasattr(x, "children"))
+            elif hasattr(v, "children"):
+                stack.append(v)
+    return seen
+
+
+def ctx_node(ser, p):
+    """The program's Context (the symbol table that is pickled with it) as one more subtree of the serialised program:
+    kind 99 = context, 98 = namespace (num = its length, name = last component, kids = the path components then the
+    entries), 96 = path component, 97 = entry (name = the key, num = 10 * entity kind + (1 when the value is an object of
+    the program's own tree, i.e. sharing survived), kids = []); 95 = one line of the reverse lookup declaration ->
+    namespace (sorted, since it is keyed by objects)."""
+    ids = _ast_ids(p)
+    ctx = p.context
+    kids = []
+    for ns, ents in ctx._context.items():
+        comps = [(96, ser.nid(str(c)), 0, [], [], []) for c in ns]
+        entries = []
+        for k, e in enumerate(ENT):
+            for name, val in ents[e].items():
+                shared = 1 if id(val) in ids else 0
+                entries.append((97, ser.nid(str(name)), 10 * k + shared, [], [], []))
+        kids.append((98, ser.nid(str(ns[-1])) if ns else 0, len(ns), [], [], comps + entries))
+    rev = []
+    for val, ns in ctx._namespaces.items():
+        if type(val).__module__.endswith(".types"):
+            # keys that are types (type parameters) compare structurally and are modified in place after insertion, so two
+            # of them may have become equal: which of the two entries a lookup finds is then arbitrary before AND after a
+            # reload (the reload merges them) -- nothing the property speaks about; only declarations (identity keys) count
+            continue
+        rev.append((ser.nid(type(val).__name__), ser.nid(str(getattr(val, "name", None))), [ser.nid(str(c)) for c in ns]))
+    rev.sort()
+    rkids = [(95, a, b, [], [], [(96, c, 0, [], [], []) for c in cs]) for a, b, cs in rev]
+    return (99, 0, len(kids), [], [], kids + rkids)
+
+
+class _Names:
+    def __init__(self):
+        self.names = {}
+
+    def nid(self, s):
+        return self.names.setdefault(s, len(self.names) + 1)
+
+
+def with_ctx(ser, p):
+    n = ser.prog()
+    return (n[0], n[1], n[2], n[3], n[4], list(n[5]) + [ctx_node(ser, p)])
+
+
 def run(tier, seed, replay=None):
     rep = C.Report("C13", tier, seed, "translation_validation")
     C.setup_repo_import(seed, ["hephaestus.py", "--iterations", "1", "--language", "kotlin"])
@@ -99,17 +166,17 @@ def run(tier, seed, replay=None):
                                 again = U.load_program(prev_file)
                                 sx = ir2coq.Ser(L, again)
                                 sx.names, sx.classes, sx.tvars = dict(prev_names[0]), dict(prev_names[1]), dict(prev_names[2])
-                                nx = sx.prog()
+                                nx = with_ctx(sx, again)
                                 pairs.append((lang, sd, prev_stage + "-loaded-again", L, prev_tree, nx))
                                 saved[(lang, sd, prev_stage + "-loaded-again")] = pickle.dumps(again)
                             b, _ = roundtrip(b, stage[0])
                             prev_file = os.path.join(tmpd, stage[0] + ".bin")
                         # the stage's comparison
                         sa = ir2coq.Ser(L, a)
-                        na = sa.prog()
+                        na = with_ctx(sa, a)
                         sb = ir2coq.Ser(L, b)
                         sb.names, sb.classes, sb.tvars = dict(sa.names), dict(sa.classes), dict(sa.tvars)
-                        nb = sb.prog()
+                        nb = with_ctx(sb, b)
                         pairs.append((lang, sd, stage, L, na, nb))
                         saved[(lang, sd, stage)] = pickle.dumps(b)
                         prev_tree, prev_stage, prev_names = nb, stage, (dict(sa.names), dict(sa.classes), dict(sa.tvars))
@@ -124,7 +191,7 @@ def run(tier, seed, replay=None):
                             bytes_unstable.append((lang, sd, stage))
                         sc = ir2coq.Ser(L, c)
                         sc.names, sc.classes, sc.tvars = dict(sa.names), dict(sa.classes), dict(sa.tvars)
-                        if sc.prog() != nb:
+                        if with_ctx(sc, c) != nb:
                             redump_diff.append((lang, sd, stage))
                 except Exception as e:          # noqa: BLE001
                     crashes.append((lang, sd, "%s: %s" % (type(e).__name__, str(e)[:150])))
@@ -155,12 +222,15 @@ def run(tier, seed, replay=None):
                         if ta_[l2] != tb_[l2] and not (ta_[l2].startswith("EXC") and tb_[l2].startswith("EXC")):
                             saved[(lang, sd, "tree")] = pickle.dumps(b)
                             text_diff.append((lang, sd, "tree", "the %s text of the reloaded directed tree differs" % l2))
+                    if ctx_node(_Names(), a) != ctx_node(_Names(), b):
+                        saved[(lang, sd, "tree")] = pickle.dumps(b)
+                        text_diff.append((lang, sd, "tree", "the symbol table (Context) of the reloaded directed tree differs"))
                     try:
                         sa = ir2coq.Ser(L, a)
-                        na = sa.prog()
+                        na = with_ctx(sa, a)
                         sb = ir2coq.Ser(L, b)
                         sb.names, sb.classes, sb.tvars = dict(sa.names), dict(sa.classes), dict(sa.tvars)
-                        pairs.append((lang, sd, "tree", L, na, sb.prog()))
+                        pairs.append((lang, sd, "tree", L, na, with_ctx(sb, b)))
                         saved[(lang, sd, "tree")] = pickle.dumps(b)
                     except Exception:       # noqa: BLE001  (the IR serialiser is fail-closed on shapes the generator cannot produce)
                         fuzz_unserialisable[0] += 1
